@@ -89,3 +89,14 @@ def run(ck, prog):
     except AnchorError as e:
         ck.violation(rule, "SVC::predict stores classes[0|1]", "SVC::predict", "", expected="anchor exists", found=f"anchor vanished: {e}")
     classes_from_unique(ck, prog, r"^svm::svc::SVC::<T, M, K>::fit$", "SVC::fit: classes = unique(y)", "svc::SVC")
+
+
+_run_pre_builders = run
+
+
+def run(ck, prog):
+    _run_pre_builders(ck, prog)
+    # every setting of the quantifier is reachable through the public builder chain: setters must not clobber other fields
+    from sa.builders import check_builders
+    check_builders(ck, prog, r"^svm::(svc::SVC|svr::SVR)Parameters$")
+    ck.floor("E2-builder", 8)
